@@ -347,5 +347,12 @@ for _pid in ("C02", "C11"):
     _te = ("tools/inventory_seeknum.py (translator for cipher's impl_seek_num! and the &mut C impl): its reading table printed in the header of "
            "lean/CC/Gen/SeekNumSrc.lean (integer values as Int with the type's range, core's integer TryFrom / TryInto = 'fits the target', "
            "`as` = wrap into the range, checked_* , unchecked + as a debug-profile guard, / % with the zero / MIN/-1 guards, usize = 64 bits)")
+
+# ---- round 7: the EQUALITY implementations of ppv-lite86 (tools/inventory_simdeq.py -> lean/CC/Gen/SimdEqSrc.lean; lean/CC/Simd/SrcEq.lean)
+for _pid, _ths in (("C13", ["eq_is_equality", "eq128_s4_is_equality", "source_eq_match"]),
+                   ("C15", ["state_eq_is_equality", "rows_eq_is_equality", "source_eq_match"])):
+    PROPS[_pid]["theorems"] = list(PROPS[_pid]["theorems"]) + [t for t in _ths if t not in PROPS[_pid]["theorems"]]
+    _te = ("tools/inventory_simdeq.py (translator of the PartialEq impls of ppv-lite86 and the derive lists of generic.rs / guts.rs): its reading "
+           "table is printed in lean/CC/Gen/SimdEqSrc.lean; ASSUMED: `#[derive(PartialEq)]` = field-wise `&&` in declaration order")
     if _te not in PROPS[_pid].get("trusted_extra", []):
         PROPS[_pid]["trusted_extra"] = list(PROPS[_pid].get("trusted_extra", [])) + [_te]
